@@ -7,7 +7,7 @@ UNIT = dict(
     files={"limiter": RL + "limiter.rs", "lib": RL + "lib.rs", "config": RL + "config.rs", "error": RL + "error.rs"},
     default_file="limiter",
     verus_flags=["--no-erasure-check"],
-    rules=[("R1",), ("R2",), ("R5",)],
+    rules=[("R1",), ("R2",), ("R5",), ("sub", "R11-addassign", r"(\bself\.\w*start)\s*\+=\s*([^;]+);", r"\1 = \1 + (\2);", -1)],
     extra_params=["clk", "tr", "gh"],
     fns={
         "FixedWindowState::new": dict(),
